@@ -22,6 +22,51 @@ CHECKS = {
         ref='6/C02'),
 }
 
+CHECKS.update({
+    'C03': dict(
+        text='TLC enumerates every injective placement of the chain into blk files x slots (with foreign blocks, extra files, ranges) on '
+             'BlockParser.tla (RightBlock) and the full VarInt round trip (VarInt.tla); every placement is concretised twice with different '
+             'physical parameters (file numbers to 2^63, name padding, garbage, heights across VarInt widths) and the real csvdump output '
+             'compared byte for byte with the reference; the real read_varint is replayed against the encoder up to 2^64-1; random layouts '
+             'with hundreds of files are trace-validated (file, offset and hash of every fetch).',
+        tech='TLA+ BlockParser.tla/VarInt.tla + TLC (MC_Layout), spec->impl replay on generated data directories, trace validation',
+        ref='6/C03'),
+    'C04': dict(
+        text='CoreIndex.tla models the node that wrote the index (headers, data, activation, failed validation, reorganisation); TLC checks '
+             'over every history in the bound that the parser\'s selection rule (ChainSel.tla) yields exactly the active chain, and MC_Fork '
+             'runs the BlockParser machine over those indexes in 4 key orders (OnlyActive, Linked). Distinct indexes are concretised with '
+             'real competitor blocks in two hash orders and run through the callbacks; traces bind select_active_chain to SelectChain.',
+        tech='TLA+ CoreIndex.tla + ChainSel.tla + BlockParser.tla, TLC, replay of node histories as real indexes, trace validation',
+        ref='6/C04'),
+    'C09': dict(
+        text='TLC checks VerifyIff on BlockParser.tla for every vector of per-block alterations (tx data, merkle field, prev field, foreign '
+             'block) x start x verify on/off, and Merkle.tla ties the tree algorithm to Bitcoin\'s definition for 1..33 leaves; every '
+             'terminal state is replayed with real bit flips, consistent chains of every tree shape must pass on all 8 coins (real genesis '
+             'blocks for 4), bit-flip sweeps over tx bytes / merkle / prev fields must fail at the right height without final files.',
+        tech='TLA+ BlockParser.tla (MC_Verify) + Merkle.tla, TLC, replay with real corruptions',
+        ref='6/C09'),
+    'C10': dict(
+        text='TLC checks the output protocol (tmp create, buffered rows, flush, rename, exit) of BlockParser.tla under every fault in the '
+             'bound: output limit at every row, unreadable block at every height, SIGKILL in every state (FinalNeverPartial, '
+             'ExitZeroComplete, FailureLeavesNone, FaultFails, termination). The same faults are enumerated on the real binary (input '
+             'faults x heights, RLIMIT_FSIZE sweeps incl. a multi-MB output, abort at every event boundary, SIGKILL with an observer) and '
+             'judged by those invariants; aborted and complete runs are trace-validated (rename only with empty buffers).',
+        tech='TLA+ BlockParser.tla (MC_Fault) + TLC incl. liveness, fault enumeration on the real binary, trace validation of crash prefixes',
+        ref='6/C10'),
+    'C11': dict(
+        text='XorReader.tla models the three position-keeping layers (File, seek_bufread::BufReader, XorReader); TLC checks PosTrue and Plain '
+             'over all call sequences x buffer capacities x key lengths; every sequence is replayed through the real reader stack at model '
+             'scale and at the production 32 KiB buffer; every MC_Layout placement is run plain and XOR-ed end to end (all callbacks).',
+        tech='TLA+ XorReader.tla + TLC, replay of all call sequences into the real XorReader, metamorphic end-to-end runs',
+        ref='6/C11'),
+    'C17': dict(
+        text='OpenNeeded / OpenBound / Reopened are TLC-checked on BlockParser.tla for every placement x range; the set of open files logged '
+             'by the real binary after every fetch is validated against the specification for every TLC layout and for random layouts with '
+             'up to 400 files; runs over hundreds of disjoint files must succeed under RLIMIT_NOFILE = single-file minimum + 3.',
+        tech='TLA+ BlockParser.tla (MC_Layout) + TLC, trace validation of open-file sets, descriptor-limit runs',
+        ref='6/C17'),
+})
+
 NOT_YET = 'check under construction in this session; will be claimed once its TLC model and conformance leg run green'
 
 
